@@ -529,8 +529,8 @@ XidNow == IF RotXid THEN {Xids[(Len(hist) % Len(Xids)) + 1]}
           ELSE {Xids[i] : i \in 1..Len(Xids)}
 
 PoActs   == IF Thin THEN {2, BadAct} ELSE {1, 2, Absent, 0, BadAct}
-OutFilters == {PNone, 1, 2, Absent, ResOut, ResOther}
-FlowArgs == IF Thin THEN {<<255, "all", PNone>>, <<5, "all", PNone>>, <<255, "all", ResOut>>}
+OutFilters == {PNone, 1, 2, Absent, ResOut, ResOther, 0}      \* (0: a number no port has - it filters like any other)
+FlowArgs == IF Thin THEN {<<255, "all", PNone>>, <<5, "all", PNone>>, <<255, "all", ResOut>>, <<255, "all", 0>>}
             ELSE ({255} \X {"all"} \X OutFilters)                       \* every filter value
                  \cup {<<0, "all", PNone>>, <<0, "all", ResOut>>, <<0, "all", 2>>}
                  \cup {<<0, "f1", PNone>>, <<255, "f1", 2>>, <<255, "f1", ResOut>>, <<255, "f1x", PNone>>,
